@@ -101,3 +101,11 @@ check("C20", "exploration", "runtime monitoring through a fake usb1 backend inje
       "scenarios through AdbDeviceUsb must equal the in-memory runs.",
       "Trusted: vlib/fakeusb1.py as the specification of a conforming python-libusb1. Runs in its own process per shard because the module opens a USBContext at import.",
       "DESIGN.md section 4 C20")
+check("C06", "exploration", "runtime monitoring under a controlled (baton-passing) scheduler over real threads / asyncio tasks: bounded-exhaustive schedule enumeration by re-execution + random/PCT schedules with "
+      "line-level preemption (sys.monitoring); per-operation result oracles, exact deadlock detection, lock-order / lock-discipline monitors, store-put wrapper for known-finding classification",
+      "CPython has no race detector; instead the real code runs on real threads but every interleaving decision at lock operations, transport calls and (optionally) source lines "
+      "of the I/O manager and packet store is taken by a recorded strategy, including the device's choice of which stream's packet goes on the wire next. All schedules with at most "
+      "1 (quick) / 2 (thorough) preemptions are enumerated for 13 fixed scenarios, thousands of random and PCT schedules are sampled beyond that, each judged by the solo-result oracles.",
+      "Trusted: the scheduler's yield-point set (locks, transport calls, LINE events on the repository's code objects); interleavings inside a single bytecode line are not explored. "
+      "K1 (known finding) is classified by mechanism through a wrapper on _AdbPacketStore.put; every other failure remains a violation.",
+      "DESIGN.md section 4 C06, 2.5")
